@@ -6,6 +6,7 @@ import (
 	"context"
 	"sort"
 	"strings"
+	"time"
 
 	"github.com/gotid/god/internal/zsim"
 	"github.com/gotid/god/lib/syncx"
@@ -13,6 +14,7 @@ import (
 	"go.etcd.io/etcd/api/v3/mvccpb"
 	clientv3 "go.etcd.io/etcd/client/v3"
 	"google.golang.org/grpc"
+	"google.golang.org/grpc/connectivity"
 )
 
 // Simulation seams for C15 (only compiled with -tags verif, only present in
@@ -21,6 +23,8 @@ import (
 
 // ZsimReset forgets every cluster and connection of earlier runs.
 func ZsimReset() {
+	ZsimSeam_NewClient = nil
+	ZsimArgs_stateWatcher_watch = nil
 	registry.lock.Lock()
 	registry.clusters = make(map[string]*cluster)
 	registry.lock.Unlock()
@@ -44,15 +48,19 @@ type zsimWatcher struct {
 
 // ZsimEtcd is the stub etcd.
 type ZsimEtcd struct {
-	R         *zsim.Run
-	Rev       int64
-	Data      map[string]string
-	History   []ZsimEvent
-	Watchers  []*zsimWatcher
-	Connected bool
-	GetFaults int // the next n Get calls fail
-	Gets      int
-	Watches   int
+	R          *zsim.Run
+	Rev        int64
+	Data       map[string]string
+	History    []ZsimEvent
+	Watchers   []*zsimWatcher
+	Connected  bool
+	Conn       *ZsimConn // connectivity as the state watcher sees it (seam mode)
+	DialFaults int       // the next n NewClient calls fail (seam mode)
+	Dials      int
+	GetFaults  int           // the next n Get calls fail
+	GetDelay   time.Duration // every Get takes this long (virtual)
+	Gets       int
+	Watches    int
 }
 
 func NewZsimEtcd(r *zsim.Run) *ZsimEtcd {
@@ -62,6 +70,47 @@ func NewZsimEtcd(r *zsim.Run) *ZsimEtcd {
 // ZsimRegister makes the registry use this stub for the endpoints.
 func (e *ZsimEtcd) ZsimRegister(endpoints []string) {
 	connManager.Set(getClusterKey(append([]string(nil), endpoints...)), e)
+}
+
+// ZsimConn is the connection whose state the real stateWatcher follows.
+type ZsimConn struct {
+	state connectivity.State
+	ch    chan struct{}
+}
+
+func (c *ZsimConn) GetState() connectivity.State { return c.state }
+
+func (c *ZsimConn) WaitForStateChange(ctx context.Context, src connectivity.State) bool {
+	for c.state == src {
+		zsim.Recv((<-chan struct{})(c.ch))
+	}
+	return true
+}
+
+// Set changes the connectivity state and wakes the watcher.
+func (c *ZsimConn) Set(s connectivity.State) {
+	old := c.ch
+	c.state, c.ch = s, make(chan struct{})
+	zsim.Close(old)
+}
+
+// ZsimUseSeams routes the registry's own dialling and connection-state watching to the stub: NewClient
+// returns it (or fails while DialFaults > 0) and the real stateWatcher watches e.Conn, so a reconnect
+// reaches cluster.reload the way it does in production.
+func (e *ZsimEtcd) ZsimUseSeams() {
+	e.Conn = &ZsimConn{state: connectivity.Ready, ch: make(chan struct{})}
+	ZsimSeam_NewClient = func(endpoints []string) (EtcdClient, error) {
+		e.Dials++
+		if e.DialFaults > 0 {
+			e.DialFaults--
+			e.R.FaultFired("etcd-dial-error")
+			return nil, context.DeadlineExceeded
+		}
+		return e, nil
+	}
+	ZsimArgs_stateWatcher_watch = func(w *stateWatcher, conn etcdConn) (*stateWatcher, etcdConn) {
+		return w, e.Conn
+	}
 }
 
 // ZsimReload does what the connection-state listener does on reconnect.
@@ -151,6 +200,9 @@ func (e *ZsimEtcd) Ctx() context.Context               { return context.Backgrou
 
 func (e *ZsimEtcd) Get(ctx context.Context, key string, opts ...clientv3.OpOption) (*clientv3.GetResponse, error) {
 	e.Gets++
+	if e.GetDelay > 0 {
+		zsim.Sleep(e.GetDelay)
+	}
 	if e.GetFaults > 0 {
 		e.GetFaults--
 		e.R.FaultFired("etcd-get-error")
